@@ -5,7 +5,7 @@ Local Open Scope string_scope.
 Import ListNotations.
 From Snaps Require Import Base.Bytes Base.Lines Base.Dec Base.Assoc.
 From Snaps Require Import Model.Frame Model.PathModel Model.Mode Model.Api.
-From Snaps Require Import Proofs.BytesP Proofs.StandaloneP.
+From Snaps Require Import Proofs.BytesP Proofs.StandaloneP Proofs.ApiP Proofs.HistoryP Proofs.UpdateHistoryP Proofs.StandaloneHistoryP.
 
 (* The bytes of the file are exactly the formatted value: no header, terminator,
    escaping or added newline - for every byte sequence, carriage returns included. *)
@@ -64,3 +64,52 @@ Example C19_example :
   o_outcome o1 = Added /\ o_path o1 = B "/S/def/TestA_b_1.snap" /\
   alookup (o_path o1) (s_fs s1) = Some v /\ o_outcome o2 = Passed /\ o_writes o2 = [].
 Proof. vm_compute. repeat split. Qed.
+
+(* ---------- histories ---------- *)
+
+(* REPLAY over whole histories: a fresh process runs ANY history of standalone calls (arbitrary bytes as values, any test
+   names, tests interleaved, Configs shared - two tests may even share a generic path) over ANY file system and only
+   passes/creates; then a new process in EVERY mode (CI, update, ...) replays the same calls: every call passes silently,
+   nothing is written, the files are byte-identical *)
+Theorem C19_replay_histories : forall s0 h e2,
+  fresh s0 -> Forall stand_op_ok h -> Forall has_value h -> Forall rec_ok (snd (run s0 h)) ->
+  let s1 := fst (run s0 h) in
+  let t0 := replay_start s1 e2 in
+  Forall silent_pass (snd (run t0 h)) /\ s_fs (fst (run t0 h)) = s_fs s1.
+Proof. exact standalone_replay_after_create. Qed.
+Print Assumptions C19_replay_histories.
+
+(* ... also when the recording run updated files wholesale, provided it never wrote two different values to one file
+   (necessary: computed counterexample [standalone_update_needs_consistency]) *)
+Theorem C19_replay_after_update : forall s0 h e2,
+  fresh s0 -> Forall stand_op_ok h -> Forall has_value h -> Forall rec_ok_upd (snd (run s0 h)) ->
+  sconsistent (sfacts s0 h) ->
+  let s1 := fst (run s0 h) in
+  let t0 := replay_start s1 e2 in
+  Forall silent_pass (snd (run t0 h)) /\ s_fs (fst (run t0 h)) = s_fs s1.
+Proof. exact standalone_replay_after_update. Qed.
+Print Assumptions C19_replay_after_update.
+
+(* THE k-TH CALL MAPS TO FILE k, over histories: if test t is the only user of its generic path g, the i-th standalone call
+   it makes since its last end addresses g with %d := i - whatever the other tests do in between (only_user is necessary:
+   the registry is keyed by the generic path alone, [sx_shared_ordinals]) *)
+Theorem C19_kth_call_histories : forall s0 h1 h2 g t,
+  fresh s0 -> Forall kth_op_ok (h1 ++ h2) -> only_user g t s0 (h1 ++ h2) ->
+  (h1 = [] \/ exists h1', h1 = (h1' ++ [OEndTest t])%list) -> ~ In (OEndTest t) h2 ->
+  forall i, i < List.length (stand_paths g (fst (run s0 h1)) h2) ->
+  nth i (stand_paths g (fst (run s0 h1)) h2) [] = subst_d g (dec (S i)).
+Proof. exact standalone_kth_call. Qed.
+Print Assumptions C19_kth_call_histories.
+
+(* a standalone file and a multi-entry file may collide (Filename "a" / "a_1"): known finding K12, computed *)
+Theorem C19_path_collision_refuted :
+  fresh sx_s0 /\ wf_fs (s_fs sx_s0) /\ Forall mixed_op_ok cx_h /\ Forall has_value cx_h /\
+  Forall rec_ok (snd (run sx_s0 cx_h)) /\
+  map o_outcome (snd (run sx_s0 cx_h)) = [NoCall; NoCall; Added; Added] /\
+  map o_path (snd (run sx_s0 cx_h)) =
+    [[]; []; B "/r/__snapshots__/a_1.snap"; B "/r/__snapshots__/a_1.snap"] /\
+  ~ disjoint_paths (mfacts sx_s0 cx_h) (sfacts sx_s0 cx_h) /\
+  map o_outcome (snd (run (replay_start (fst (run sx_s0 cx_h)) sx_env_ci) cx_h)) =
+    [NoCall; NoCall; Failed EDiff; Passed].
+Proof. exact union_needs_disjointness. Qed.
+Print Assumptions C19_path_collision_refuted.
